@@ -302,7 +302,10 @@ template <typename F, typename U, bool ZO> static void op_project(const Case& c,
   if (mdl == 0) p = V3<F>((F)eye[0], (F)eye[1], (F)eye[2]);
   else { // model = translate(0.5,-0.25,-3) * (2 * rotation by a quarter turn about y): exact entries, exact inverse
     model = M4<F>((F)0, (F)0, (F)-2, (F)0, (F)0, (F)2, (F)0, (F)0, (F)2, (F)0, (F)0, (F)0, (F)0.5, (F)-0.25, (F)-3, (F)1);
-    LD d[3] = {eye[0] - 0.5L, eye[1] + 0.25L, eye[2] + 3}; p = V3<F>((F)(-d[2] / 2), (F)(d[1] / 2), (F)(d[0] / 2)); }
+    LD d[3] = {eye[0] - 0.5L, eye[1] + 0.25L, eye[2] + 3}; p = V3<F>((F)(-d[2] / 2), (F)(d[1] / 2), (F)(d[0] / 2));
+    // non-affine matrices in the model slot: 2 = the same transform scaled homogeneously (bottom row (0,0,0,2)), 3 = the whole projection * model product with an identity projection
+    if (mdl == 2) model = model * (F)2;
+    if (mdl == 3) { model = proj * model; proj = M4<F>(1); } }
   const EM<F> em = em_of(model), ep = em_of(proj);
   // (a) project against the defining formula
   const EB pe[3] = {E::ex(p[0]), E::ex(p[1]), E::ex(p[2])}; EB W[3];
@@ -400,7 +403,7 @@ template <typename F> static void reg(Engine& E) {
   add("dispatch infinitePerspective", op_disp_inf<F>, product("FOVYxASPECTxNEAR", {FVQ, ASQ, NQ}), product("FOVYxASPECTxNEAR (thorough)", {FVT, AST, NT}), DC);
   // project / unProject / pickMatrix
   const Domain VXY = ints("viewport origin {0,10,-5}", {0, 10, -5}), VW = ints("viewport width {1,640,1920}", {1, 640, 1920}), VH = ints("viewport height {1,480,1080}", {1, 480, 1080});
-  const Domain PIPE = product("KIND{cube,ortho,frustum,perspective}xNF{(.1,10),(1,2),(1,1e3),(.01,1e5),(2e7,1e8),(1e-5,1e-2)}xMODEL{I,TRS}xHAND{RH,LH}", {range("KIND", 0, 4, true), range("NF", 0, 6, true), range("MODEL", 0, 2, true), range("HAND", 0, 2, true)});
+  const Domain PIPE = product("KIND{cube,ortho,frustum,perspective}xNF{(.1,10),(1,2),(1,1e3),(.01,1e5),(2e7,1e8),(1e-5,1e-2)}xMODEL{I,TRS,2*TRS,P*TRS with proj=I}xHAND{RH,LH}", {range("KIND", 0, 4, true), range("NF", 0, 6, true), range("MODEL", 0, 4, true), range("HAND", 0, 2, true)});
   const Domain PTS = product("POINT{-1,-.5,0,.75,1}^2x{0,.25,1}", {ints("A", {0, 2, 4, 7, 8}), ints("B", {0, 2, 4, 7, 8}), ints("D", {0, 2, 4})});
   const Domain PTT = product("POINT{-1,-.75,..,1}^2x{0,.1,.25,.5,1}", {range("A", 0, 9, true), range("B", 0, 9, true), range("D", 0, 5, true)});
   const Domain PD = product("PIPELINExPOINTxVIEWPORT", {PIPE, PTS, VXY, VXY, VW, VH}), PDT = product("PIPELINExPOINTxVIEWPORT (thorough)", {PIPE, PTT, VXY, VXY, VW, VH});
